@@ -7,9 +7,6 @@ pub fn sub<const B: Word>(&self, lhs: &Repr<B>, rhs: &Repr<B>) -> Rounded<FBig<R
         // C03 domain: "operands that fit the context precision p"
         add_fits(B as int, self.precision, lhs.significand.v(), rhs.significand.v()),
         add_ranges(B as int, self.precision, lhs.significand.v(), lhs.exponent as int, rhs.significand.v(), rhs.exponent as int),
-        // KNOWN DEFECT region excluded (see add_defect_region)
-        !add_defect(R::md(), B as int, self.precision, lhs.significand.v(), lhs.exponent as int, Sign::Negative,
-            rhs.significand.v(), rhs.exponent as int),
     ensures
         add_post(R::md(), B as int, self.precision, lhs.significand.v(), lhs.exponent as int, Sign::Negative,
             rhs.significand.v(), rhs.exponent as int, map_repr(ret)),
